@@ -114,7 +114,7 @@ class Harnessed(object):
         self.lib = lib
         self.env = env
         self.p = parser or lib.Parser(debug=debug)
-        self.frames = []      # one [events, calls] frame per parse call in progress (re-entrancy)
+        self.frames = [[[], []]]   # one [events, calls] frame per parse call in progress (re-entrancy); [0] is a sink
         self.hooks = {}       # optional: kind -> callable(harnessed, payload) run inside the listener
         from hotxlfp.formulas import error as xlerror
         self.xlerror = xlerror
@@ -205,6 +205,7 @@ class Harnessed(object):
                     setter(dec(v))
 
     def parse(self, text):
+        del self.frames[0][0][:], self.frames[0][1][:]
         self.frames.append([[], []])
         try:
             rec = self.p.parse(text)
